@@ -30,6 +30,7 @@ type C05Case struct {
 	Dest    string `json:"dest"`
 	Norec   bool   `json:"norec"`
 	Noow    bool   `json:"noow"`
+	Nilopt  bool   `json:"nilopt"` // copy / move: pass a nil options value (the defaults: recursive, overwrite)
 }
 
 // name concretisations: tokens -> path segments (injective)
@@ -412,14 +413,22 @@ func c05one(c C05Case, concName, scratch string, ev map[string]interface{}) {
 		ev["got"] = mutating()
 	case "copy":
 		ev["want"] = []objRow{{"op": "Copy", "path": w.tok(target), "dest": w.tok(w.abs(c.Dest)), "norec": c.Norec, "noow": c.Noow}}
-		if err := cl.Copy(ctx, name, w.arg(c.Dform, c.Dest), &webdav.CopyOptions{NoRecursive: c.Norec, NoOverwrite: c.Noow}); err != nil {
+		copts := &webdav.CopyOptions{NoRecursive: c.Norec, NoOverwrite: c.Noow}
+		if c.Nilopt {
+			copts = nil
+		}
+		if err := cl.Copy(ctx, name, w.arg(c.Dform, c.Dest), copts); err != nil {
 			fail("Copy", err)
 			return
 		}
 		ev["got"] = mutating()
 	case "move":
 		ev["want"] = []objRow{{"op": "Move", "path": w.tok(target), "dest": w.tok(w.abs(c.Dest)), "norec": false, "noow": c.Noow}}
-		if err := cl.Move(ctx, name, w.arg(c.Dform, c.Dest), &webdav.MoveOptions{NoOverwrite: c.Noow}); err != nil {
+		mopts := &webdav.MoveOptions{NoOverwrite: c.Noow}
+		if c.Nilopt {
+			mopts = nil
+		}
+		if err := cl.Move(ctx, name, w.arg(c.Dform, c.Dest), mopts); err != nil {
 			fail("Move", err)
 			return
 		}
